@@ -113,7 +113,8 @@ func c08h(c *ctx) {
 		if !c.thorough && !boundary && code%16 != 5 {
 			continue
 		}
-		for rn, r := range reasons {
+		for _, rn := range []string{"none", "ok", "badutf8", "trunc"} { // fixed order: keys must be reproducible
+			r := reasons[rn]
 			if !boundary && !c.thorough && rn != "ok" && code%64 != 5 {
 				continue
 			}
